@@ -137,29 +137,38 @@ class _Fold(ast.NodeTransformer):
         n.body = self._block(n.body) or [ast.copy_location(ast.Pass(), n)]
         n.orelse = self._block(n.orelse)
         # `for x in (a, b): body`  ->  body[x:=a]; body[x:=b]   (short literal sequences of plain names/constants)
-        if self.unroll and isinstance(n.iter, (ast.Tuple, ast.List)) and 1 <= len(n.iter.elts) <= 4 and not n.orelse \
-                and isinstance(n.target, ast.Name) and all(isinstance(e, (ast.Name, ast.Constant)) for e in n.iter.elts):
-            x = n.target.id
-            leaves = False
+        simple = lambda e: isinstance(e, (ast.Name, ast.Constant))  # noqa: E731
+        if self.unroll and isinstance(n.iter, (ast.Tuple, ast.List)) and 1 <= len(n.iter.elts) <= 4 and not n.orelse:
+            names: list[str] = []
+            rows: list[list[ast.expr]] = []
+            if isinstance(n.target, ast.Name) and all(simple(e) for e in n.iter.elts):
+                names = [n.target.id]
+                rows = [[e] for e in n.iter.elts]
+            elif isinstance(n.target, ast.Tuple) and all(isinstance(t, ast.Name) for t in n.target.elts) and all(
+                    isinstance(e, ast.Tuple) and len(e.elts) == len(n.target.elts) and all(simple(x) for x in e.elts) for e in n.iter.elts):
+                names = [t.id for t in n.target.elts]
+                rows = [list(e.elts) for e in n.iter.elts]
+            leaves = not names
             for b in n.body:
                 for m in ast.walk(b):
                     if isinstance(m, (ast.Break, ast.Continue, ast.FunctionDef, ast.Lambda)):
                         leaves = True
-                    if isinstance(m, ast.Name) and m.id == x and isinstance(m.ctx, (ast.Store, ast.Del)):
+                    if isinstance(m, ast.Name) and m.id in names and isinstance(m.ctx, (ast.Store, ast.Del)):
                         leaves = True
             if not leaves:
                 out = []
-                for e in n.iter.elts:
+                for row in rows:
+                    sub = dict(zip(names, row))
                     for b in n.body:
                         c = copy.deepcopy(b)
                         for m in ast.walk(c):
                             for fld, v in list(ast.iter_fields(m)):
-                                if isinstance(v, ast.Name) and v.id == x and isinstance(v.ctx, ast.Load):
-                                    setattr(m, fld, copy.deepcopy(e))
+                                if isinstance(v, ast.Name) and v.id in sub and isinstance(v.ctx, ast.Load):
+                                    setattr(m, fld, copy.deepcopy(sub[v.id]))
                                 elif isinstance(v, list):
                                     for i, y in enumerate(v):
-                                        if isinstance(y, ast.Name) and y.id == x and isinstance(y.ctx, ast.Load):
-                                            v[i] = copy.deepcopy(e)
+                                        if isinstance(y, ast.Name) and y.id in sub and isinstance(y.ctx, ast.Load):
+                                            v[i] = copy.deepcopy(sub[y.id])
                         out.append(c)
                 self.changed = True
                 return out
